@@ -29,7 +29,9 @@ INTERIOR = ('std::cell::', 'Cell<', 'RefCell<', 'UnsafeCell<', 'std::sync::atomi
             'Lazy<', 'HashMap<', 'HashSet<', 'RandomState')
 PURE_INIT_CALLEES = ('hash_from_bytes_sha3_512', 'to_string', 'to_owned', 'compress', 'identity', 'into_iter', 'iter_mut', 'iter', 'zip', 'next',
                      'enumerate', 'add', 'as_bytes', 'deref', 'index_mut', 'index', 'get_or_init', 'new',
-                     'from_uniform_bytes', 'update', 'finalize', 'default', 'into', 'drop', 'as_ref', 'borrow', 'branch', 'from_residual')
+                     'from_uniform_bytes', 'update', 'finalize', 'default', 'into', 'drop', 'as_ref', 'borrow', 'branch', 'from_residual',
+                     # string formatting of integers (format!): deterministic, no environment access
+                     'format', 'new_display', 'must_use', 'new_const', 'as_str', 'digest')
 
 
 def run(ctx):
